@@ -506,6 +506,13 @@ Definition same_body {D1 S1 D2 S2 : Type} (r1 : S1 -> D1 -> afile) (r2 : S2 -> D
   | _, _ => False
   end.
 
+(* the same, except that the all-in-one run may silently skip a type that an explicit -type=T refuses *)
+Definition sim_body {D1 S1 D2 S2 : Type} (r1 : S1 -> D1 -> afile) (r2 : S2 -> D2 -> afile) (a : mres D1 S1) (b : mres D2 S2) : Prop :=
+  match a, b with
+  | MSkip _, MFatal => True
+  | _, _ => same_body r1 r2 a b
+  end.
+
 Lemma body_eq : forall x y, body x = body y -> a_imports x = a_imports y /\ a_decls x = a_decls y /\ a_stray x = a_stray y.
 Proof. unfold body. intros x y H. inversion H. auto. Qed.
 
@@ -543,7 +550,7 @@ Section AioVsSingles.
   Variable cT : string -> cmd.            (* the command used for T alone *)
   Hypothesis HcT_types : forall T, c_types (cT T) = [T].
   Hypothesis HcT_file : forall T, c_file (cT T) = "".
-  Hypothesis Hsim : forall T st v, same_body render render (mk c st v T) (mk (cT T) st v T).
+  Hypothesis Hsim : forall T st v, sim_body render render (mk c st v T) (mk (cT T) st v T).
   Variable st0 : St.
 
   Lemma single_run : forall T o disk st,
@@ -562,7 +569,8 @@ Section AioVsSingles.
   (* the sources of the all-in-one run, type by type, have the bodies of the single runs *)
   Lemma sources_vs_singles : forall fmap types l,
     sources (mk c) render hw c st0 fmap types = Some l ->
-    (forall T o disk st, In T types -> generate (mk (cT T)) render lt (cT T) o hw disk st <> None) /\
+    (forall T o disk st, In T types -> generate (mk (cT T)) render lt (cT T) o hw disk st = None ->
+                         exists s, alone (mk c) hw st0 T = MSkip s) /\
     forall o disk st,
       map body (map snd l) =
       map body (flat_map (fun T => single_file (generate (mk (cT T)) render lt (cT T) o hw disk st)) types).
@@ -582,11 +590,9 @@ Section AioVsSingles.
           destruct Hs as [_ Hb]. cbn. rewrite Hb. reflexivity.
       + destruct (IH l H) as [IH1 IH2]. split.
         * intros T' o disk st [<-|Hin]; [|apply IH1; auto].
-          rewrite single_run. unfold alone.
-          destruct (mk (cT T) st0 (pview_of (mk_view hw [] [])) T); cbn in Hs; try contradiction; discriminate.
+          intros _. exists st'. unfold alone. exact E.
         * intros o disk st. cbn [flat_map]. rewrite map_app, <- IH2. rewrite single_run. unfold alone.
-          destruct (mk (cT T) st0 (pview_of (mk_view hw [] [])) T) as [d2 s2 st2|st2|]; cbn in Hs; try contradiction.
-          reflexivity.
+          destruct (mk (cT T) st0 (pview_of (mk_view hw [] [])) T) as [d2 s2 st2|st2|]; cbn in Hs; try contradiction; reflexivity.
   Qed.
 
   (* C08, first sentence, for a blind generator *)
@@ -594,7 +600,8 @@ Section AioVsSingles.
     separate c = false ->
     confirm_types lt c o (mk_view hw disk []) = Some (types, fmap) ->
     generate (mk c) render lt c o hw disk st = Some sm ->
-    (forall T o' disk' st', In T types -> generate (mk (cT T)) render lt (cT T) o' hw disk' st' <> None) /\
+    (forall T o' disk' st', In T types -> generate (mk (cT T)) render lt (cT T) o' hw disk' st' = None ->
+                            exists s, alone (mk c) hw st0 T = MSkip s) /\
     forall o' disk' st',
       let singles := flat_map (fun T => single_file (generate (mk (cT T)) render lt (cT T) o' hw disk' st')) types in
       match sm with
@@ -637,12 +644,28 @@ Proof. intros. rewrite (new_make_state_indep c st1 st2). apply same_out_refl. Qe
 
 (* the command line enters the output of a type only through the header *)
 Lemma enum_cmd_sim : forall c c' st v T,
-  c_ejson c = c_ejson c' -> c_etext c = c_etext c' ->
+  c_ejson c = c_ejson c' -> c_etext c = c_etext c' -> specified c = specified c' ->
   same_body enum_render enum_render (enum_make c st v T) (enum_make c' st v T).
 Proof.
-  intros c c' st v T Hj Ht. unfold enum_make. destruct (enum_values v T) as [|x vals]; [exact I|].
-  cbn. split; auto. unfold body, enum_render, mk_file. cbn. rewrite Hj, Ht. reflexivity.
+  intros c c' st v T Hj Ht Hs. unfold enum_make. destruct (enum_values v T) as [|x vals].
+  - rewrite Hs. destruct (specified c'); exact I.
+  - cbn. split; auto. unfold body, enum_render, mk_file. cbn. rewrite Hj, Ht. reflexivity.
 Qed.
+
+(* an all-in-one command (-file= or -type=star) against the explicit -type=T: a type without constants is skipped by the
+   first and refused by the second *)
+Lemma enum_cmd_sim_aio : forall c c' st v T,
+  c_ejson c = c_ejson c' -> c_etext c = c_etext c' -> specified c = false ->
+  sim_body enum_render enum_render (enum_make c st v T) (enum_make c' st v T).
+Proof.
+  intros c c' st v T Hj Ht Hs. unfold enum_make. destruct (enum_values v T) as [|x vals].
+  - rewrite Hs. destruct (specified c'); exact I.
+  - cbn. split; auto. unfold body, enum_render, mk_file. cbn. rewrite Hj, Ht. reflexivity.
+Qed.
+
+Lemma same_sim_body : forall {D1 S1 D2 S2} (r1 : S1 -> D1 -> afile) (r2 : S2 -> D2 -> afile) a b,
+  same_body r1 r2 a b -> sim_body r1 r2 a b.
+Proof. intros D1 S1 D2 S2 r1 r2 [d1 s1 st1|st1|] [d2 s2 st2|st2|]; cbn; auto. Qed.
 
 Lemma rest_cmd_sim : forall o c c' st v T,
   same_body (fun (_ : rstate) d => rest_render d) (fun (_ : rstate) d => rest_render d) (rest_make o c st v T) (rest_make o c' st v T).
@@ -661,7 +684,8 @@ Theorem enum_aio_is_concatenation : forall c (cT : string -> cmd) hw o disk st t
   confirm_types (list_types_of CEnum) c o (mk_view hw disk []) = Some (types, fmap) ->
   generate (enum_make c) enum_render (list_types_of CEnum) c o hw disk st = Some sm ->
   (forall T o' disk' st', In T types ->
-     generate (enum_make (cT T)) enum_render (list_types_of CEnum) (cT T) o' hw disk' st' <> None) /\
+     generate (enum_make (cT T)) enum_render (list_types_of CEnum) (cT T) o' hw disk' st' = None ->
+     exists s, alone (enum_make c) hw estate0 T = MSkip s) /\
   forall o' disk' st',
     let singles := flat_map (fun T => single_file (generate (enum_make (cT T)) enum_render (list_types_of CEnum) (cT T) o' hw disk' st')) types in
     match sm with
@@ -675,8 +699,11 @@ Proof.
   intros c cT hw o disk st types fmap sm HcT.
   assert (H1 : forall T, c_types (cT T) = [T]) by (intros T; apply HcT).
   assert (H2 : forall T, c_file (cT T) = "") by (intros T; apply HcT).
-  assert (H3 : forall T st' v, same_body enum_render enum_render (enum_make c st' v T) (enum_make (cT T) st' v T)).
-  { intros T st' v. destruct (HcT T) as [_ [_ [Hj Ht]]]. apply enum_cmd_sim; auto. }
+  intros Hsep.
+  assert (Hus : specified c = false) by (unfold separate in Hsep; destruct (specified c); [discriminate | reflexivity]).
+  assert (H3 : forall T st' v, sim_body enum_render enum_render (enum_make c st' v T) (enum_make (cT T) st' v T)).
+  { intros T st' v. destruct (HcT T) as [_ [_ [Hj Ht]]]. apply enum_cmd_sim_aio; auto. }
+  revert Hsep.
   exact (aio_is_concatenation enum_make enum_render enum_same_out hw (fun c0 => enum_blind c0 _) (list_types_of CEnum) c cT H1 H2 H3 estate0
            o disk st types fmap sm).
 Qed.
@@ -687,7 +714,8 @@ Theorem rest_aio_is_concatenation : forall ro c (cT : string -> cmd) hw o disk s
   confirm_types (list_types_of CRest) c o (mk_view hw disk []) = Some (types, fmap) ->
   generate (rest_make ro c) (fun _ d => rest_render d) (list_types_of CRest) c o hw disk st = Some sm ->
   (forall T o' disk' st', In T types ->
-     generate (rest_make ro (cT T)) (fun _ d => rest_render d) (list_types_of CRest) (cT T) o' hw disk' st' <> None) /\
+     generate (rest_make ro (cT T)) (fun _ d => rest_render d) (list_types_of CRest) (cT T) o' hw disk' st' = None ->
+     exists s, alone (rest_make ro c) hw rstate0 T = MSkip s) /\
   forall o' disk' st',
     let singles := flat_map (fun T => single_file (generate (rest_make ro (cT T)) (fun _ d => rest_render d) (list_types_of CRest) (cT T) o' hw disk' st')) types in
     match sm with
@@ -702,7 +730,7 @@ Proof.
   assert (H1 : forall T, c_types (cT T) = [T]) by (intros T; apply HcT).
   assert (H2 : forall T, c_file (cT T) = "") by (intros T; apply HcT).
   exact (aio_is_concatenation (rest_make ro) (fun _ d => rest_render d) (rest_same_out ro) hw (fun c0 => rest_blind ro c0 _) (list_types_of CRest) c cT
-           H1 H2 (fun T st' v => rest_cmd_sim ro c (cT T) st' v T) rstate0 o disk st types fmap sm).
+           H1 H2 (fun T st' v => same_sim_body _ _ _ _ (rest_cmd_sim ro c (cT T) st' v T)) rstate0 o disk st types fmap sm).
 Qed.
 
 (* ---------------------------------------------------------------- statements as used by Properties/C08.v *)
